@@ -428,7 +428,7 @@ def r6(F, R):
     R.check(iff, "next-try-iff-left-positive", b, "next_try is Some iff left > 0",
             "Retries::next_try no longer is `Some iff left > 0`; runner and writers would disagree on 'retry left'" + (": " + why if why else ""))
     R.check(iff, "next-try-none-propagates", b, "None when left == 0", "Retries::next_try can be Some although left == 0")
-    R.floor(4)
+    R.floor(3)   # the two next_try clauses + at least one writer-side predicate (how many closures test `left` is a matter of style)
 
 
 # ---- R7 ---------------------------------------------------------------------------------------------
